@@ -66,6 +66,44 @@ func (b *builder) ring() []vkit.P2 {
 	return append(r, r[0])
 }
 
+// twinRing: a ring with as many vertices as prev that shares prev's left-most vertex (the vertex ring comparison starts
+// from) and the 0-2 vertices following it, and has all its other vertices in a block of its own: a look-alike that a
+// comparison has to tell from prev only after a matching prefix. The two rings are far apart as point sets.
+func (b *builder) twinRing(prev []vkit.P2) []vkit.P2 {
+	open := prev[:len(prev)-1]
+	n := len(open)
+	a := 0
+	for i, q := range open {
+		if float64(q[0]) < float64(open[a][0]) {
+			a = i
+		}
+	}
+	keep := rapid.IntRange(0, 2).Draw(b.t, "twinkeep")
+	fresh := b.pts(n)
+	r := make([]vkit.P2, n)
+	for i := 0; i < n; i++ {
+		if d := (i - a + n) % n; d <= keep {
+			r[i] = open[i]
+		} else {
+			r[i] = fresh[i]
+		}
+	}
+	return append(r, r[0])
+}
+
+// rings draws nr rings; a later ring is a twin of its predecessor in one case of four.
+func (b *builder) rings(nr int) [][]vkit.P2 {
+	var out [][]vkit.P2
+	for j := 0; j < nr; j++ {
+		if j > 0 && rapid.IntRange(0, 3).Draw(b.t, "twin") == 1 {
+			out = append(out, b.twinRing(out[j-1]))
+			continue
+		}
+		out = append(out, b.ring())
+	}
+	return out
+}
+
 func (b *builder) geom(depth int) vkit.GJ {
 	types := []string{"Point", "MultiPoint", "LineString", "MultiLineString", "Polygon", "MultiPolygon", "Bounds"}
 	if depth > 0 {
@@ -86,19 +124,12 @@ func (b *builder) geom(depth int) vkit.GJ {
 			g.Rings = append(g.Rings, b.pts(b.count(1, 5)))
 		}
 	case "Polygon":
-		n := rapid.IntRange(0, 4).Draw(b.t, "nr")
-		for i := 0; i < n; i++ {
-			g.Rings = append(g.Rings, b.ring())
-		}
+		g.Rings = b.rings(rapid.IntRange(0, 4).Draw(b.t, "nr"))
 	case "MultiPolygon":
 		n := rapid.IntRange(0, 3).Draw(b.t, "np")
 		for i := 0; i < n; i++ {
 			nr := rapid.IntRange(1, 3).Draw(b.t, "nr")
-			var rings [][]vkit.P2
-			for j := 0; j < nr; j++ {
-				rings = append(rings, b.ring())
-			}
-			g.Polys = append(g.Polys, rings)
+			g.Polys = append(g.Polys, b.rings(nr))
 		}
 	case "Bounds":
 		p := b.pts(2)
@@ -402,7 +433,19 @@ func gen(t *rapid.T) Case {
 }
 
 func run(c Case) (v vkit.Verdict) {
-	g, h := c.G.Geom(), c.H.Geom()
+	g, sameG := vkit.SharedGeom(c.G)
+	h, sameH := vkit.SharedGeom(c.H)
+	defer func() {
+		if m := sameG(); m != "" && !v.Bad {
+			v = v.Fail("the call changed the geometry it was given (point lists are sub-slices of one array with spare capacity): %s", m)
+		}
+	}()
+	defer func() {
+		if m := sameH(); m != "" && !v.Bad {
+			v = v.Fail("the call changed the geometry it was given (point lists are sub-slices of one array with spare capacity): %s", m)
+		}
+	}()
+
 	v.Class(fmt.Sprintf("want_%v", c.Want))
 	v.Class("top_" + c.G.T)
 	v.NonTrivial = c.Edit != "perturb"
@@ -514,7 +557,7 @@ func TestProp(t *testing.T) {
 	vkit.Main(t, vkit.Spec[Case]{
 		ID: "C15",
 		Rule: "rapid: base geometry g of any of the eight types (collections nested to depth 2, members possibly empty; members of 0-6 vertices, a few per cent 250-450) on a lattice of spacing 100*tol with every leaf member in " +
-			"its own block (distinct members far apart) and closed rings having a unique left-most vertex by a lattice step; h = g with every coordinate perturbed by <0.45*tol " +
+			"its own block (distinct members far apart) and closed rings having a unique left-most vertex by a lattice step (a quarter of the later rings of a polygon are 'twins' of their predecessor: same vertex count, same left-most vertex and up to two following vertices, everything else far away); h = g with every coordinate perturbed by <0.45*tol " +
 			"(closing vertex kept equal to the first), members of multi-line-strings/multi-polygons/polygon rings/collections permuted and ring start vertices rotated -> must be " +
 			"similar; or additionally one negative edit (other type, member inserted/deleted at any position, vertex inserted/deleted, line reversed, one vertex displaced by " +
 			"2-50*tol) at a random nesting level -> must not be similar. Both directions are evaluated and must agree with each other and with the constructed truth. " +
